@@ -121,9 +121,8 @@ def rq_operator_names(text, with_arity=False):
 
 
 # input predicates of the OPEN findings only (the predicates of fixed findings were removed with the fix: nothing can
-# be classified as F7 F15 F29 N1 N2 N5 N6 N7 N8 N9 N10 N11 N12 N13 H1 H2 any more)
+# be classified as F7 F15 F29 N1 N2 N5 N6 N7 N8 N9 N10 N11 N12 N13 N14 N15 F9 H1 H2 any more)
 PRED = {
-    "non-ascii-source": lambda c: any(ord(ch) > 127 for ch in c["src"]),
     # C12-N3 as a precondition (c12_rq_lookups_total_under_wf): a structurally mutated RQ that does NOT satisfy rq_wf
     "mutated-rq-json": lambda c: (c["entry"] == "json_rq" and c.get("family", "").startswith("json:") and c.get("family") not in ("json:orig", "json:int:lit")
                                   and rq_doc_wf(c["src"]) is not True),
@@ -135,16 +134,12 @@ PRED = {
     "rq-aggregate-partition-cycle": lambda c: c["entry"] == "json_rq" and rq_aggregate_cycle(c["src"]),
     # C12-N17: a table reference with a nameless column
     "rq-nameless-tableref-column": lambda c: c["entry"] == "json_rq" and re.search(r'\[\s*\{\s*"Single"\s*:\s*null\s*\}\s*,\s*\d+\s*\]', c["src"]) is not None,
-    # C12-N15: the internal tuple helpers of std called from source
-    "tuple-helper-call": lambda c: re.search(r"\b(_eq|_is_null|tuple_every|tuple_map|tuple_zip)\b", c["src"]) is not None,
     "mutated-pl-json": lambda c: c["entry"] == "json_pl" and c.get("family", "").startswith("json:") and c.get("family") not in ("json:orig", "json:int:lit"),
     "deep-or-long": lambda c: True,   # refined by thresholds below
     # C12-H3: at least 10 named arguments whose value opens a parenthesis (`x:(`), nested
     "nested-named-args": lambda c: len(re.findall(r"[A-Za-z_][A-Za-z_0-9]*:\(", c["src"])) >= 10 and bracket_depth(c["src"]) >= 10,
     # C12-H4: at least 10 unclosed `(`, each behind an operator that also has a prefix form (+ - * == .. and the alias `=`)
     "unclosed-after-prefix-operator": lambda c: c["src"].count("(") - c["src"].count(")") >= 10 and len(re.findall(r"(?:\+|-|\*|==|(?<![=!<>~])=|\.\.|:)\s*\(", c["src"])) >= 10,
-    # C12-N14: a lambda (its body may fold to a partially applied built-in); in corr-closure-arity the model classifies instead
-    "lambda-in-source": lambda c: "->" in c["src"],
 }
 
 
@@ -465,7 +460,7 @@ def run():
     cases += CR.arith_singular_cases(ck)
     cases += CR.rq_column_cases(ck)
     for src in ("from t | derive x = (std._eq 1)", "from t | filter (tuple_every 5)", "from t | derive x = (std.tuple_zip {a} 1)"):
-        cases.append({"entry": "compile", "src": src, "stack_mb": 64, "family": "N15:tuple-helper", "prog": None, "target": "sql.generic"})
+        cases.append({"entry": "compile", "src": src, "stack_mb": 64, "family": "fixed:N15", "prog": None, "target": "sql.generic"})
 
     # replays of the open hang findings H3 / H4: own cap, no second look
     hang_cases = CR.open_hang_cases()
